@@ -96,6 +96,9 @@ def main():
         if f.endswith(".cases"):
             os.remove(os.path.join(workdir, f))
     os.makedirs(os.path.join(VERIF, "replays"), exist_ok=True)
+    for f in os.listdir(os.path.join(VERIF, "replays")):
+        if f.startswith(pid + "-") and not a.replay:
+            os.remove(os.path.join(VERIF, "replays", f))
     os.makedirs(os.path.join(VERIF, "evidence"), exist_ok=True)
     violations = []       # (kind, key, replay dict)
     notes = []
